@@ -53,7 +53,7 @@ FamP ==
 (* with %26), eq (key with %3D), plus, pct20, noval, empty, mal (m=%zz), semi (n=1;o=2)                          *)
 (* spplus / sp20: a key with a space, spelled my+key and my%20key (the name "my key" may be configured)         *)
 Kinds == {"plain", "dup", "tok", "tok2", "enctok", "amp", "eq", "plus", "pct20", "noval", "empty", "mal", "semi",
-          "spplus", "sp20"}
+          "spplus", "sp20", "tokbare", "enctokbare"}   \* tokbare: a configured name without value (?tok)
 QueriesQuick == UNION {[1..n -> Kinds] : n \in 0..2}
                 \cup {<<a, "tok", b>> : a \in {"plain", "amp", "mal", "tok2"}, b \in {"dup", "eq", "semi", "enctok", "noval"}}
 QueriesThorough == UNION {[1..n -> Kinds] : n \in 0..3}
@@ -66,7 +66,8 @@ FamQ ==
                                                !.method = Methods[(i % 8) + 1],
                                                !.scheme = Schemes[(i % 3) + 1]]]
 
-PhNames == {"custom", "auth", "host", "lower"}
+(* blank: the pipeline sets the header to an empty value (a template that renders nothing) *)
+PhNames == {"custom", "auth", "host", "lower", "blank"}
 PhSeqs == {SetToSeq(s) : s \in (SUBSET PhNames) \ {{}}}
 
 FamH ==
